@@ -11,7 +11,8 @@ def run(c):
     observer_design.run_design(c, "C06")
     observer_design.run_replay(c, "C06")
     b = 2 if c.thorough else 1
-    fams = [("lifecycle", oe.fam_lifecycle(), b)]
+    fams = [("lifecycle", oe.fam_lifecycle(), b),
+            ("lifecycle, sets iterating in the opposite order", oe.reversed_orders(oe.fam_lifecycle()[:4] + oe.fam_lifecycle()[9:10]), b)]
     oe.run_families(c, "C06", fams, bound=b, random_n=2000 if c.thorough else 200)
     from checks import c06_real
 
